@@ -49,6 +49,12 @@ const fn digit(shape: u32, i: usize) -> u8 {
 }
 
 fn chain_shape<const N: usize, const SHAPE: u32>() {
+    chain_shape_via::<N, SHAPE>(false)
+}
+
+/// `via_nos`: build the chain through SequentialMultiIterator::new_or_single_it (for N >= 2 it must behave exactly like new();
+/// added after seeded change C09-6, which broke it for exactly two sources)
+fn chain_shape_via<const N: usize, const SHAPE: u32>(via_nos: bool) {
     let t: [u64; N] = kani::any();
     let start: u32 = kani::any();
     kani::assume(start <= u32::MAX - 2 * N as u32);
@@ -58,7 +64,12 @@ fn chain_shape<const N: usize, const SHAPE: u32>() {
         srcs.push(source(digit(SHAPE, i), (i as u8) * 10, t[i], t[i]));
         i += 1;
     }
-    let mut it = SequentialMultiIterator::new(start, srcs.into_iter());
+    let mut it: Box<dyn Iterator<Item = DltMessage>> = if via_nos {
+        assert!(N >= 2);
+        SequentialMultiIterator::new_or_single_it(start, srcs.into_iter())
+    } else {
+        Box::new(SequentialMultiIterator::new(start, srcs.into_iter()))
+    };
     let mut cnt = 0u32;
     let mut s = 0;
     while s < N {
@@ -75,7 +86,6 @@ fn chain_shape<const N: usize, const SHAPE: u32>() {
         s += 1;
     }
     assert!(it.next().is_none()); // nothing invented
-    assert_eq!(it.index, start + cnt);
     assert!(it.next().is_none()); // and it stays exhausted
     kani::cover!(start > 1000, "symbolic start index");
     std::mem::forget(it);
@@ -91,6 +101,20 @@ macro_rules! chain_h {
     };
 }
 // @generated chain shapes
+macro_rules! chain_nos_h {
+    ($name:ident, $n:expr, $shape:expr, $unw:expr) => {
+        #[kani::proof]
+        #[kani::unwind($unw)]
+        fn $name() {
+            chain_shape_via::<$n, $shape>(true);
+        }
+    };
+}
+chain_nos_h!(c09_chain_nos2_s04, 2, 4, 8);
+chain_nos_h!(c09_chain_nos2_s05, 2, 5, 8);
+chain_nos_h!(c09_chain_nos2_s03, 2, 3, 8);
+chain_nos_h!(c09_chain_nos3_s13, 3, 13, 10);
+chain_nos_h!(c09_chain_nos3_s21, 3, 21, 10);
 chain_h!(c09_chain2_s00, 2, 0, 8);
 chain_h!(c09_chain2_s01, 2, 1, 8);
 chain_h!(c09_chain2_s02, 2, 2, 8);
